@@ -1079,7 +1079,7 @@ def stress_inputs():
 # ---------------------------------------------------------------- C11
 class GenericRender(TypeRender):
     GT = {'T': 'T', 'U': 'U', 'WrapT': 'Wrap<T>', 'PhantomT': '::core::marker::PhantomData<T>', 'PairTU': '(T, U)', 'conc': 'u8',
-          'PhantomAll': '::core::marker::PhantomData<(T, U)>', 'A': 'TA'}
+          'PhantomAll': '::core::marker::PhantomData<(T, U)>', 'A': 'TA', 'B': 'TB'}
 
     def __init__(self, idx, cfg, prop, **kw):
         super().__init__(idx, cfg, prop, **kw)
@@ -1092,7 +1092,7 @@ class GenericRender(TypeRender):
         return self.GT[f['ty']]
 
     def target_name(self, x):
-        return 'TA'
+        return {'A': 'TA', 'B': 'TB'}[x]
 
     def method_path(self, t):
         return {'PartialEq': 'probes::g_eq', 'Ord': 'probes::g_cmp', 'PartialOrd': 'probes::g_pcmp', 'Hash': 'probes::g_hash',
@@ -1140,7 +1140,94 @@ def c11(ctx):
                trace_module='TraceB', trace_cfg='TraceB.cfg')
 
 
+# ---------------------------------------------------------------- C12
+class BoundsRender(GenericRender):
+    def generics_decl(self):
+        return '<T, U>' if self.opts['gen'] == 'TU' else "<'a, T: Bnd = u8, const N: usize>"
+
+    def where_decl(self):
+        return '' if self.opts['gen'] == 'TU' else 'where T: Usr'
+
+    def custom_bound_text(self, t):
+        return 'T: Cst'
+
+    def field_type(self, v, i, f):
+        ty = f['ty']
+        if ty == 'PhantomAll':
+            return 'PhantomData<(T, U)>' if self.opts['gen'] == 'TU' else "PhantomData<&'a [T; N]>"
+        if ty == 'PhantomT':
+            return 'PhantomData<T>'
+        return self.GT[ty]
+
+    def type_default_expr(self):
+        return 'todo!()'
+
+
+def nospace(s):
+    return s.replace(' ', '')
+
+
+def c12(ctx):
+    quick = ctx.tier == 'quick'
+    runs = [{'module': 'MC_C12', 'cfg': 'MC_C12_quick.cfg', 'workers': 8}] if quick else \
+           [{'module': 'MC_C12', 'cfg': 'MC_C12_thorough.cfg', 'workers': 12, 'timeout': 3000, 'heap': '16g'}]
+    corpus = rpipe.model_check(ctx, runs, ['Seal'])
+    corpus_path = os.path.join(ctx.workdir, 'corpus.ndjson')
+    rpipe.write_ndjson(corpus_path, corpus)
+    exe = xchan.build(ctx)
+    renders = [BoundsRender(i, c, 'C12') for i, c in enumerate(corpus, 1)]
+    requests = [{'id': r.idx, 'text': r.item(derive=False)} for r in renders]
+    raw = xchan.expand(exe, requests)
+    trace = os.path.join(ctx.workdir, 'trace.ndjson')
+    n_items = 0
+    with open(trace, 'w') as f:
+        for r in raw:
+            if r['outcome'] != 'ok':
+                # an accepted configuration that is refused: judged as an impossible impl record
+                f.write(json.dumps({'t': r['id'], 'op': 'refused', 'tr': '', 'generics': [], 'where': []}) + '\n')
+                continue
+            trs = []
+            for it in r['items']:
+                tr = it.get('trait')
+                if tr is None and 'fn new' in (it.get('members') or []):
+                    tr = 'Default'
+                if tr == 'Into':
+                    tr = 'Into:' + {'TA': 'A', 'TB': 'B'}.get(nospace(it.get('target') or ''), '?')
+                e = {'t': r['id'], 'op': 'impl', 'tr': tr or '?', 'generics': [nospace(g) for g in it.get('generics', [])],
+                     'where': [nospace(w) for w in it.get('where', [])]}
+                f.write(json.dumps(e, separators=(',', ':')) + '\n')
+                trs.append(e['tr'])
+                n_items += 1
+            f.write(json.dumps({'t': r['id'], 'op': 'itemset', 'tr': '*', 'trs': trs, 'generics': [], 'where': []}, separators=(',', ':')) + '\n')
+    res = rpipe.validate_trace(ctx, corpus_path, trace, 'TraceB', 'TraceB.cfg')
+    lines = rpipe.load_lines(trace, res['bad'])
+    rawmap = {r['id']: r for r in raw}
+    done = set()
+    for ln in res['bad']:
+        e = lines[ln]
+        k = (e['t'], e['tr'])
+        if k in done:
+            continue
+        done.add(k)
+        r = renders[e['t'] - 1]
+        ctx.violation({'kind': 'impl-header', 'cfg': corpus[e['t'] - 1], 'trait': e['tr']},
+                      {'what': 'the generic parameters or the where-clause of a generated impl are not what the bound mode and the type\'s own generics dictate '
+                               '(EduceBounds.ImplParams / WhereSet)', 'input': requests[e['t'] - 1]['text'], 'observed': e,
+                       'outcome': rawmap[e['t']]['outcome'], 'err': rawmap[e['t']].get('err')})
+    ctx.coverage.update({
+        'traces_validated_against_impl': 1, 'trace_events': res['n'], 'trace_events_rejected': len(res['bad']),
+        'programs': len(corpus), 'evaluations': n_items, 'distinct_nontrivial': sum(1 for c in corpus if any(v != 'auto' for v in c['opts']['bounds'].values())),
+        'rule': 'generic items over two generics descriptors (<T, U>; <\'a, T: Bnd = u8, const N: usize> where T: Usr) x 13 trait sets x bound mode of the set\'s '
+                'primary trait {auto, auto spelled explicitly, bound = false, bound(*), custom predicate} in every spelling x field type classes and delegation attributes; '
+                'every impl item of the in-process expansion is one record (generic parameters, where-predicates, white space removed); '
+                'distinct_nontrivial = configurations with a non-automatic mode',
+        'samples': [{'input': requests[len(requests) // 2]['text'], 'record': rpipe.load_lines(trace, [1]).get(1)}],
+    })
+    ctx.assumptions += X_ASSUMPTIONS + ['predicates are compared as token text with white space removed (the property is about the predicates written, so text is the observable)']
+
+
 REGISTRY = {
+    'C12': c12,
     'C11': c11,
     'C13': c13,
     'C17': c17,
